@@ -1507,30 +1507,39 @@ lemma atanFold (z : ℚ) (j : ℕ) :
     · simp only
       ring
 
-lemma atanSmall_eq (z : ℚ) :
-    atanSmall z = mk' (atanSQ 201 z - |z| ^ 403 / 403) (atanSQ 201 z + |z| ^ 403 / 403) := by
-  unfold atanSmall
-  simp only [Nat.reduceAdd, Nat.reduceMul]
-  rw [atanFold z 201]
-  simp only [ratAbs_eq, abs_pow, Nat.reduceAdd, Nat.reduceMul, Nat.cast_ofNat]
+lemma atanSmallN_eq (n : ℕ) (z : ℚ) :
+    atanSmallN n z = mk' (atanSQ (n + 1) z - |z| ^ (2 * n + 3) / ((2 * n + 3 : ℕ) : ℚ))
+      (atanSQ (n + 1) z + |z| ^ (2 * n + 3) / ((2 * n + 3 : ℕ) : ℚ)) := by
+  unfold atanSmallN
+  simp only
+  rw [atanFold z (n + 1)]
+  simp only [ratAbs_eq, abs_pow]
+  have : 2 * (n + 1) + 1 = 2 * n + 3 := by ring
+  rw [this]
 
 lemma atanSQ_cast (n : ℕ) (z : ℚ) : ((atanSQ n z : ℚ) : ℝ) = atanS n (z : ℝ) := by
   unfold atanSQ atanS
   push_cast
   rfl
 
+/-- For every number of terms and every rational `z`, the interval `atanSmallN n z` contains the
+real number `arctan z` (the remainder bound holds for all `z`). -/
+theorem atanSmallN_sound (n : ℕ) (z : ℚ) : Mem (Real.arctan (z : ℝ)) (atanSmallN n z) := by
+  rw [atanSmallN_eq]
+  have h := abs_arctan_sub_atanS_le (n + 1) (z : ℝ)
+  rw [abs_le] at h
+  have e : 2 * (n + 1) + 1 = 2 * n + 3 := by ring
+  rw [e] at h
+  apply mem_mk'
+  · push_cast [atanSQ_cast] at h ⊢
+    linarith [h.1]
+  · push_cast [atanSQ_cast] at h ⊢
+    linarith [h.2]
+
 /-- For every rational `z`, the interval `atanSmall z` contains the real number `arctan z`
 (no smallness assumption on `z` is needed: the remainder bound holds for all `z`). -/
-theorem atanSmall_sound' (z : ℚ) : Mem (Real.arctan (z : ℝ)) (atanSmall z) := by
-  rw [atanSmall_eq]
-  have h := abs_arctan_sub_atanS_le 201 (z : ℝ)
-  rw [abs_le] at h
-  norm_num only at h
-  apply mem_mk'
-  · push_cast [atanSQ_cast]
-    linarith [h.1]
-  · push_cast [atanSQ_cast]
-    linarith [h.2]
+theorem atanSmall_sound' (z : ℚ) : Mem (Real.arctan (z : ℝ)) (atanSmall z) :=
+  atanSmallN_sound 200 z
 
 example : Mem (Real.arctan ((3 : ℚ) : ℝ)) (atanSmall 3) := atanSmall_sound' 3
 
@@ -1605,8 +1614,8 @@ lemma red_sound {y : ℝ} {x : I} (h : Mem y x) : Mem (rho y) (red x) := by
 
 lemma atanQ_eq (q : ℚ) : atanQ q =
     if |q| ≤ 1 / 2 then atanSmall q else
-      scale 8 (hull (atanSmall (red (red (red (ofRat q)))).lo)
-        (atanSmall (red (red (red (ofRat q)))).hi)) := by
+      scale 8 (hull (atanSmallN 40 (red (red (red (ofRat q)))).lo)
+        (atanSmallN 40 (red (red (red (ofRat q)))).hi)) := by
   unfold atanQ
   simp only [ratAbs_eq]
   rfl
@@ -1635,8 +1644,8 @@ theorem atanQ_sound (q : ℚ) : Mem (Real.arctan (q : ℝ)) (atanQ q) := by
       push_cast; ring
     rw [he]
     apply scale_sound
-    have lo := (atanSmall_sound' x3.lo).1
-    have hi := (atanSmall_sound' x3.hi).2
+    have lo := (atanSmallN_sound 40 x3.lo).1
+    have hi := (atanSmallN_sound 40 x3.hi).2
     have m1 := Real.arctan_strictMono.monotone hm.1
     have m2 := Real.arctan_strictMono.monotone hm.2
     exact hull_of_le (lo.trans m1) (m2.trans hi)
